@@ -899,3 +899,7 @@ Proof.
     + unfold row_at in H2. destruct (find (fun r0 => key_eqb (r_key r0) (r_key r')) src) as [r|] eqn:F; [|discriminate].
       apply find_some in F. destruct F as [Hin E]. apply key_eqb_eq in E. exists r. split; assumption.
 Qed.
+
+Lemma eq_account_ok_example :
+  eq_account_ok c10_eo = true /\ eq_account_ok [[97]; [32; 98]]%N = false /\ eq_account_ok [[]] = false.
+Proof. vm_compute. repeat split; reflexivity. Qed.
